@@ -1082,6 +1082,7 @@ class Ctx:
         self.unknown = 0
         self.replayer = None
         self.fresh_checks = False
+        self.exact_fallback = False
         self.round_enum = 0
         self.want = None
         self.refine_rounds = 4
